@@ -2669,3 +2669,53 @@ def no_shared_mutable_class_state(ctx: Ctx, rid: str, why: str) -> None:
                        "previous ones recorded", text=f"{ci.name}.{name}", line=getattr(x0, "lineno", None))
     any_fn = next(iter(sorted(ctx.prog.functions.values(), key=lambda x: x.qname)))
     ctx.ob(rid, any_fn, "classes examined", None, n_cls >= 10, f"{n_cls} classes", nontrivial=False, text="classes")
+
+
+def none_inline_return_edges(ctx: Ctx, f: FunctionInfo, target: Node) -> Set[Tuple[int, int]]:
+    """The mirror image of nonnull_inline_return_edges:
+
+        x = self._helper(...)        # analysed in place; `return None` on some paths, a value on others
+        if x is None: return ...     # (or `if x is not None: <target>`)
+        <target>
+
+    When `target` is only reachable through the NOT-None edge of a None-test on the helper's result, the paths that leave the
+    helper through `return None` (or fall off its end) are infeasible: the edges out of those return sites are returned."""
+    g = ctx.cfg(f)
+    dom = ctx.dom(f, ALL)
+    out: Set[Tuple[int, int]] = set()
+    rd = ctx.rd(f)
+    for b in g.nodes:
+        if b.kind != "branch" or b.id not in dom[target.id]:
+            continue
+        t_ = b.ast
+        var = None
+        none_label = None
+        if isinstance(t_, ast.Compare) and len(t_.ops) == 1 and isinstance(t_.left, ast.Name) \
+                and isinstance(t_.comparators[0], ast.Constant) and t_.comparators[0].value is None:
+            var, none_label = t_.left.id, ("true" if isinstance(t_.ops[0], (ast.Is, ast.Eq)) else "false")
+        if var is None:
+            continue
+        nt = edge_target(g, b, none_label)
+        ot = edge_target(g, b, "false" if none_label == "true" else "true")
+        if ot is None or target.id not in reachable_from(g, ot, NORMAL) or (nt is not None and target.id in reachable_from(g, nt, NORMAL)):
+            continue
+        for d in rd.reaching(b.id, var):
+            dn = g.nodes[d]
+            val = dn.ast.value if d != g.entry and isinstance(dn.ast, ast.Assign) else None
+            if isinstance(val, ast.Call) and id(val) in g.inline_returns:
+                for e_, n_ in g.inline_returns[id(val)]:
+                    if e_ is None or (isinstance(e_, ast.Constant) and e_.value is None):
+                        out |= {(n_, x) for x, l in g.succ[n_] if l in NORMAL}
+    return out
+
+
+def reachable_excluding(g: CFG, start: int, dead: Set[Tuple[int, int]], labels: Set[str] = NORMAL) -> Set[int]:
+    seen: Set[int] = set()
+    work = [start]
+    while work:
+        x = work.pop()
+        if x in seen:
+            continue
+        seen.add(x)
+        work += [d for d, l in g.succ[x] if l in labels and (x, d) not in dead]
+    return seen
